@@ -673,7 +673,30 @@ def check_csv(cell_idx_rows, decorate, path):
     return problems, want
 
 
+def _csv_ragged_shard(arg):
+    """Two rows with different numbers of cells (l1 != l2)."""
+    l1, l2, offset, stride = arg
+    t = Tally()
+    d = os.path.join(SCRATCH, "r%d_%d_%d" % (l1, l2, offset))
+    os.makedirs(d, exist_ok=True)
+    path = os.path.join(d, "t.csv")
+    try:
+        cells = list(range(len(CSV_CELLS)))
+        for i, flat in space.product_shard([cells] * (l1 + l2), offset, stride):
+            rows = [list(flat[:l1]), list(flat[l1:])]
+            pr, want = check_csv(rows, False, path)
+            t.count("csv_files")
+            t.count("csv_files_ragged")
+            if pr:
+                t.violation(pr[0], {"part": "csv", "rows": rows, "decorate": False})
+    finally:
+        shutil.rmtree(d, ignore_errors=True)
+    return t
+
+
 def _csv_shard(arg):
+    if arg[0] == "ragged":
+        return _csv_ragged_shard(arg[1:])
     ncols, offset, stride, decorate = arg
     t = Tally()
     d = os.path.join(SCRATCH, "w%d_%d_%d" % (ncols, offset, int(decorate)))
@@ -800,6 +823,13 @@ def run(ctx):
             expected_csv += n
             for off, stride in pool.strided(n, 16):
                 shards.append((ncols, off, stride, True))
+        for l1 in range(0, 4):
+            for l2 in range(0, 4):
+                if l1 != l2:
+                    n = len(CSV_CELLS) ** (l1 + l2)
+                    expected_csv += n
+                    for off, stride in pool.strided(n, 16 if n > 1000 else 1):
+                        shards.append(("ragged", l1, l2, off, stride))
         res = pool.map_shards(_csv_shard, _rot(shards, ctx.seed))
         total.merge(res)
     finally:
@@ -839,7 +869,7 @@ def run(ctx):
             "assignments_per_table": len(assignments()),
             "sequences_per_table": len(sequences()),
             "sequence_max_len": 3,
-            "csv": "2 rows x 1..3 columns over %d cell forms (+ comment/blank-row decorated variants for 1..2 columns)" % len(CSV_CELLS),
+            "csv": "2 rows x 1..3 columns over %d cell forms (+ comment/blank-row decorated variants for 1..2 columns; + every ragged 2-row file with 0..3 cells per row, l1 != l2)" % len(CSV_CELLS),
             "csv_files": expected_csv,
         },
         "rule": "BFS over ValueSet operation histories with dedup on (_values,_ranges), oracle frozenset; all tables/assignments/sequences/CSV files of the stated shapes against models/setmodel.py",
